@@ -270,6 +270,27 @@ def tasks(tier, seed):
                         "validate_every": 211,
                     }
                 )
+    # batch detectors: scripted starts right after a drift, so that positions of the second epoch at which the first
+    # epoch has already computed thresholds (on a reference of another size) lie inside the bound
+    for name in ("HDDDM", "CDBD", "KdqTreeBatch", "NNDVI"):
+        d = DRIVERS[name]
+        dq, dt, split = PLAN[name]
+        depth = (dq if tier == "quick" else dt) - 1
+        for ci, p in enumerate(d.all_configs(tier)):
+            if name == "KdqTreeBatch" and p.get("_no_initial_ref"):
+                continue
+            for pre in drift_prefixes(name, p, maxlen=3, limit=2, seeder=(lambda pos, n=name, i=ci: rng.seed_step(0 if pos == "init" else seed, n, i, pos))):
+                out.append(
+                    {
+                        "system": name,
+                        "cfg": {"id": ci, "params": p, "with_set_reference": [1, 3]},
+                        "prefix": pre,
+                        "depth": depth,
+                        "label": "%s|%d|after-drift:%s" % (name, ci, ",".join(map(str, pre))),
+                        "cost": 4 * COST.get(name, 1),
+                        "validate_every": 211,
+                    }
+                )
     for name in NAMES:
         d = DRIVERS[name]
         dq, dt, split = PLAN[name]
